@@ -3127,6 +3127,7 @@ func (c S3ApiController) DeleteObjects(ctx *fiber.Ctx) error {
 			BucketOwner: parsedAcl.Owner,
 			EvSender:    c.evSender,
 			EventName:   s3event.EventObjectRemovedDeleteObjects,
+			Deleted:     append([]types.DeletedObject{}, res.Deleted...),
 		})
 }
 
@@ -4004,6 +4005,7 @@ type MetaOpts struct {
 	ObjectETag    *string
 	VersionId     *string
 	Status        int
+	Deleted       []types.DeletedObject
 }
 
 func SendResponse(ctx *fiber.Ctx, err error, l *MetaOpts) error {
@@ -4123,6 +4125,7 @@ func SendXMLResponse(ctx *fiber.Ctx, resp any, err error, l *MetaOpts) error {
 			ObjectETag:  l.ObjectETag,
 			VersionId:   l.VersionId,
 			EventName:   l.EventName,
+			Deleted:     l.Deleted,
 		})
 	}
 
